@@ -22,7 +22,7 @@ MANIFEST = {
             "them), node-list formatting of Builder/Compiler (format_node), format_feature/type_id/data. AArch64 operand and named-label "
             "parse-back are monitored on every run, not proved for all inputs. The encoder's bytes are inputs here (C01/C02).",
 }
-MODS = ["AsmjitVerif.Props.C20", "AsmjitVerif.Props.C20Names", "AsmjitVerif.Props.C20Mem", "AsmjitVerif.Props.C20Read", "AsmjitVerif.Props.C20Line"]
+MODS = ["AsmjitVerif.Props.C20", "AsmjitVerif.Props.C20Names", "AsmjitVerif.Props.C20Mem", "AsmjitVerif.Props.C20Read", "AsmjitVerif.Props.C20Line", "AsmjitVerif.Props.C20A64Line"]
 
 M64 = (1 << 64) - 1
 FF = {"mc": 0x1, "alias": 0x8, "explain": 0x10, "heximm": 0x20, "hexoff": 0x40, "casts": 0x100, "pos": 0x200, "regtype": 0x400}
@@ -294,6 +294,9 @@ class Gen:
                 wf = False
             # architectural syntax reads `[base], x` as one post-index operand: a plain memory operand is the last operand
             if a64 and any(o.startswith("am.") and o.split(".")[6] == "0" for o in ops[:-1]):
+                wf = False
+            # AArch64 has no register-list instructions: the line reader does not regroup `{w0-w3, w8}`
+            if a64 and any(o.startswith("rl.") for o in ops):
                 wf = False
             # {k}/{z} need a first operand; an extra register that is no mask and no rep prefix is simply not shown
             if not a64:
